@@ -107,7 +107,7 @@ pub fn run(args: &Args) {
                     }
                     continue;
                 }
-                let direct = guarded(|| decode_volume_coverage_pattern(&mut bytes.as_slice()));
+                let direct = guarded(|| if dribbled(&bytes) { decode_volume_coverage_pattern(&mut Dribble::new(&bytes)) } else { decode_volume_coverage_pattern(&mut bytes.as_slice()) });
                 let framed_msg = match framed { Ok(Ok(MessageContents::VolumeCoveragePattern(m))) => Some(*m), _ => None };
                 match direct {
                     Ok(Ok(m)) => {
